@@ -10,9 +10,40 @@ META = dict(
 )
 
 
+def selftest_listener_trace(ctx, tf):
+    """Binding self-test: a failed Dial whose connection no Accept returned is turned into a success in
+    an otherwise genuine log; InmemListenerTrace must reject it (else the trace spec binds nothing)."""
+    execs, cur = [], []
+    for line in open(tf):
+        if not line.strip():
+            continue
+        r = json.loads(line)
+        if r.get("ev") == "init" and cur:
+            execs.append(cur)
+            cur = []
+        cur.append(r)
+    if cur:
+        execs.append(cur)
+    for ex in execs:
+        peers = set(r.get("peer") for r in ex if r.get("ev") == "accept.end" and r.get("ok") == 1)
+        for r in ex:
+            if r.get("ev") == "dial.end" and r.get("ok") == 0 and r.get("id") not in peers:
+                r["ok"] = 1
+                p = os.path.join(ctx.scratch, "c33_selftest.ndjson")
+                with open(p, "w") as f:
+                    for x in ex:
+                        f.write(json.dumps(x) + "\n")
+                ok, at, _ = ctx.tlc_trace("util", "InmemListenerTrace", p, dfs=False, timeout=600)
+                if ok:
+                    raise Infra("self-test failed: InmemListenerTrace accepted a log with a forged successful Dial")
+                ctx.extra["trace_selftest_rejected_at"] = at
+                return
+    ctx.extra["trace_selftest_rejected_at"] = "no failed dial in this run's log (self-test skipped)"
+
+
 def run(ctx):
     # ---- model checking
-    ctx.tlc_mc("util", "PipeConnsMC", "PipeConnsMC.cfg", consts={"OPS": ctx.pick(3, 5)}, workers=4, timeout=1500)
+    ctx.tlc_mc("util", "PipeConnsMC", "PipeConnsMC.cfg", consts={"OPS": ctx.pick(3, 5), "MCSIZES": ctx.pick("{0, 3, 2000}", "{0, 1, 3, 2000}")}, workers=4, timeout=1500)
     for closers, cap in ctx.pick([("{1}", 1)], [("{1}", 1), ("{1}", 2), ("{1, 2}", 1)]):
         ctx.tlc_mc("util", "InmemListener", "InmemListenerMC.cfg", consts={"CLOSERS": closers, "CAP": cap},
                    workers=4, timeout=1500)
@@ -40,6 +71,8 @@ def run(ctx):
     if not tf or not os.path.exists(tf):
         raise Infra("listener harness wrote no trace")
     ctx.validate_traces("util", "InmemListenerTrace", tf, label="listener", dfs=False, timeout=1500)
+    if not ctx.quick:
+        selftest_listener_trace(ctx, tf)
     ctx.exhaustive = False
     ctx.extra["pipe_behaviours_exhaustive"] = nex
     ctx.rule = ("pipe case = one TLC-printed behaviour (all transitions from all distinct pipe states within %d calls, sizes %s); "
